@@ -55,7 +55,7 @@ impl std::io::Read for ChunkReader<'_> {
 }
 
 /// returns an error text if the encoder / decoder misbehaves under short writes, short reads or a full writer
-fn environment_deviations<T: Encodable + Decodable + PartialEq + Debug>(v: &T, b: &[u8]) -> Result<u64, String> {
+pub fn environment_deviations<T: Encodable + Decodable + PartialEq + Debug>(v: &T, b: &[u8]) -> Result<u64, String> {
     let mut n_runs = 0u64;
     for chunk in [1usize, 3, 64] {
         let mut w = ChunkWriter { buf: Vec::new(), chunk, cap: usize::MAX };
